@@ -72,7 +72,7 @@ def deltaPart (caps : Caps) (pen next : Style) (field : String) : List Tok :=
      else [])
   else if field = "Hyperlink" then
     (if pen.link ≠ next.link ∨ (next.link ≠ "" ∧ pen.linkParams ≠ next.linkParams) then
-      [Tok.osc8 (if next.link = "" then "" else next.linkParams) next.link]
+      [Tok.osc8 (lpField (if next.link = "" then "" else next.linkParams)) next.link]
      else [])
   else [Tok.other field]
 
